@@ -23,7 +23,7 @@ def run(chk, tier):
     chk.floor("R-WRITER", "stores to hwloc_obj.gp_index", n1, 3)
     chk.rule("R-SETKIND", "cpusets and nodesets never mixed in the core")
     ns = setkind.run(chk, P, ["topology.c", "topology-synthetic.c", "topology-xml.c", "topology-linux.c", "topology-x86.c"])
-    chk.floor("R-SETKIND", "kinded bitmap operations", ns, 150)
+    chk.floor("R-SETKIND", "kinded bitmap operations", ns, 110)
     chk.rule("R-LISTKIND", "the four child lists never confused")
     setkind.listkind(chk, P, ["topology.c"])
     chk.rule("R-FLAGS", "topology flag words of hwloc_topology_set_flags")
